@@ -845,4 +845,139 @@ example : (match newRangedPool 1000000000000 1000000000000 1000000000000 1000000
     | _ => false) = true := by
   set_option exponentiation.threshold 512 in decide
 
+/-! ### Ranged pools under swaps: `SetBalances(rx, ry, derive)`
+
+Within one batch `PoolBuyOrders` / `PoolSellOrders` walk a clone of the pool through the ticks with
+`SetBalances(rx, ry, derive = false)`: the translation `(transX, transY)` is KEPT, only the reserves move.  With
+`derive = true` (the first catch-up order of a batch; and, through `NewRangedPool`, every construction of the pool
+object from the bank balances — i.e. every later block) the translation is recomputed from the new reserves. -/
+
+theorem setBalances_fixed_ok {p q : RPool} {rx ry : Int} (h : setBalances p rx ry false = .ok q) :
+    q.rx = rx ∧ q.ry = ry ∧ q.ps = p.ps ∧ q.minP = p.minP ∧ q.maxP = p.maxP ∧ q.transX = p.transX ∧ q.transY = p.transY ∧
+    q.xComp = Dec.add (toDec rx) p.transX ∧ q.yComp = Dec.add (toDec ry) p.transY := by
+  unfold setBalances at h
+  simp only [Bool.false_eq_true, if_false] at h
+  obtain ⟨⟨tx, ty⟩, h0, h⟩ := bind_ok h
+  have e0 := pure_ok h0
+  have e1 : p.transX = tx := congrArg (·.1) e0
+  have e2 : p.transY = ty := congrArg (·.2) e0
+  subst e1 e2
+  obtain ⟨xc, hx, h⟩ := bind_ok h
+  obtain ⟨yc, hy, h⟩ := bind_ok h
+  have e := pure_ok h
+  rw [← e]
+  exact ⟨rfl, rfl, rfl, rfl, rfl, rfl, rfl, chk_ok hx, chk_ok hy⟩
+
+/-- **With the translation kept, a ranged pool's price stays between the prices of the two ends of its own curve
+for EVERY reserve pair in the box the swaps can reach**: if the reserves stay within `0 ≤ rx ≤ X`, `0 ≤ ry ≤ Y`
+(`X`, `Y` the reserves of the all-quote / all-base end), then
+`transX/(Y + transY) ≤ price(rx, ry) ≤ (X + transX)/transY` (in `Dec` arithmetic, `Quo`'s roundings included).
+The two bounds are constants of the pool as long as `derive = false`. -/
+theorem ranged_price_within_endpoints_fixed_translation {p q : RPool} {rx ry X Y : Int} {v : Dec}
+    (htx : 0 ≤ p.transX) (hty : 0 < p.transY) (hrx : 0 ≤ rx) (hX : rx ≤ X) (hry : 0 ≤ ry) (hY : ry ≤ Y)
+    (hs : setBalances p rx ry false = .ok q) (hv : rangedPrice q = .ok v) :
+    Dec.quo p.transX (Dec.add (toDec Y) p.transY) ≤ v ∧ v ≤ Dec.quo (Dec.add (toDec X) p.transX) p.transY := by
+  obtain ⟨_, _, _, _, _, _, _, ex, ey⟩ := setBalances_fixed_ok hs
+  have hP := P_pos
+  have hv' : v = Dec.quo q.xComp q.yComp := by
+    unfold rangedPrice at hv
+    split at hv
+    · exact absurd hv (by simp)
+    · exact (quo_ok hv).2
+  rw [hv', ex, ey]
+  exact quo_box htx hty (Int.mul_nonneg hrx (Int.le_of_lt hP)) (Int.mul_le_mul_of_nonneg_right hX (Int.le_of_lt hP))
+    (Int.mul_nonneg hry (Int.le_of_lt hP)) (Int.mul_le_mul_of_nonneg_right hY (Int.le_of_lt hP))
+
+/-- with the translation kept the price moves WITH the swap: when the pool buys base coin (quote reserve down, base
+reserve up) its price does not rise, when it sells it does not fall -/
+theorem ranged_price_monotone_fixed_translation {p q q' : RPool} {rx ry rx' ry' : Int} {v v' : Dec}
+    (htx : 0 ≤ p.transX) (hty : 0 < p.transY) (hrx' : 0 ≤ rx') (hle : rx' ≤ rx) (hry : 0 ≤ ry) (hge : ry ≤ ry')
+    (hs : setBalances p rx ry false = .ok q) (hv : rangedPrice q = .ok v)
+    (hs' : setBalances p rx' ry' false = .ok q') (hv' : rangedPrice q' = .ok v') : v' ≤ v := by
+  obtain ⟨_, _, _, _, _, _, _, ex, ey⟩ := setBalances_fixed_ok hs
+  obtain ⟨_, _, _, _, _, _, _, ex', ey'⟩ := setBalances_fixed_ok hs'
+  have hP := P_pos
+  have pv : ∀ {r : RPool} {w : Dec}, rangedPrice r = .ok w → w = Dec.quo r.xComp r.yComp := by
+    intro r w h
+    unfold rangedPrice at h
+    split at h
+    · exact absurd h (by simp)
+    · exact (quo_ok h).2
+  rw [pv hv, pv hv', ex, ey, ex', ey']
+  exact quo_shift_mono htx hty (Int.mul_nonneg hrx' (Int.le_of_lt hP)) (Int.mul_le_mul_of_nonneg_right hle (Int.le_of_lt hP))
+    (Int.mul_nonneg hry (Int.le_of_lt hP)) (Int.mul_le_mul_of_nonneg_right hge (Int.le_of_lt hP))
+
+/-- **Re-derivation forgets the pool's history**: `SetBalances(rx, ry, derive = true)` yields exactly the pool
+`NewRangedPool(rx, ry, ps, minPrice, maxPrice)` builds from the reserves alone — whatever translation the pool had. So
+the price the chain sees in the next block is a function of `(rx, ry, minPrice, maxPrice)` only, and the price-range
+clause for chain states is the clause for `newRangedPool` on the reachable reserves (where D15's witnesses live). -/
+theorem rederive_is_fresh_pool (p : RPool) (rx ry : Int) :
+    setBalances p rx ry true = newRangedPool rx ry p.ps p.minP p.maxP := by
+  unfold setBalances newRangedPool
+  simp only [if_true]
+
+/-- **Exactly when re-derivation moves the curve (the D15 mechanism)**: at the same reserves, `derive = true` gives
+the same pool as `derive = false` — same translation, hence the same two end points — if and only if the kept
+translation is a FIXED POINT of `DeriveTranslation` at those reserves.  (`rederive_moves_endpoint_counterexample`: it
+is not, even for reserves on the pool's own curve.) -/
+theorem rederive_same_iff_translation_fixpoint {p q q' : RPool} {rx ry : Int}
+    (hf : setBalances p rx ry false = .ok q) (hd : setBalances p rx ry true = .ok q') :
+    q' = q ↔ deriveTranslation rx ry p.minP p.maxP = .ok (p.transX, p.transY) := by
+  obtain ⟨f1, f2, f3, f4, f5, f6, f7, f8, f9⟩ := setBalances_fixed_ok hf
+  unfold setBalances at hd
+  simp only [if_true] at hd
+  obtain ⟨⟨tx, ty⟩, h0, h⟩ := bind_ok hd
+  obtain ⟨xc, hx, h⟩ := bind_ok h
+  obtain ⟨yc, hy, h⟩ := bind_ok h
+  have e := pure_ok h
+  constructor
+  · intro heq
+    have t1 : q'.transX = tx := by rw [← e]
+    have t2 : q'.transY = ty := by rw [← e]
+    rw [h0]
+    rw [heq, f6] at t1
+    rw [heq, f7] at t2
+    rw [t1, t2]
+  · intro hfix
+    rw [hfix] at h0
+    have e0 := Except.ok.inj h0
+    have e1 : p.transX = tx := congrArg (·.1) e0
+    have e2 : p.transY = ty := congrArg (·.2) e0
+    subst e1 e2
+    have hxc := chk_ok hx
+    have hyc := chk_ok hy
+    rw [← e]
+    cases q
+    simp only [RPool.mk.injEq] at *
+    simp_all
+
+/-- price of a pool record, `none` when a step fails -/
+def priceOf (q : M RPool) : Option Dec :=
+  match q with
+  | .ok r => (match rangedPrice r with | .ok v => some v | .error _ => none)
+  | .error _ => none
+
+/-- **Re-derivation moves an end point (D15 mechanism, concrete).**  Range [3.2, 3.2032]; the pool built from reserves
+(1 000 000, 300 000) has price 3.2016….  Walk it along its OWN curve to the all-base end (0, 612 420) with the
+translation kept: price 3.200000000914… — inside the range.  Re-derive the translation at the very same reserves (what
+the next block does): price 3.199999999999999999 — below `minPrice`. -/
+theorem rederive_moves_endpoint_counterexample :
+    ∃ p0, newRangedPool 1000000 300000 1 3200000000000000000 3203200000000000000 = .ok p0 ∧
+      priceOf (setBalances p0 0 612420 false) = some 3200000000914497119 ∧
+      PriceInRange 3200000000000000000 3203200000000000000 3200000000914497119 ∧
+      priceOf (setBalances p0 0 612420 true) = some 3199999999999999999 ∧
+      ¬ PriceInRange 3200000000000000000 3203200000000000000 3199999999999999999 := by
+  set_option exponentiation.threshold 512 in
+  refine ⟨_, rfl, ?_, ?_, ?_, ?_⟩ <;> decide
+
+/-- non-vacuity: the fixed-translation theorems apply to that pool (translation positive), and the bounds of
+`ranged_price_within_endpoints_fixed_translation` for the box [0, 1960724] × [0, 612420] are its two end-point prices -/
+example : (match newRangedPool 1000000 300000 1 3200000000000000000 3203200000000000000 with
+    | .ok p => decide (0 ≤ p.transX ∧ 0 < p.transY) &&
+        (priceOf (setBalances p 500000 456000 false)).isSome &&
+        decide (Dec.quo p.transX (Dec.add (toDec 612420) p.transY) = 3200000000914497119) &&
+        decide (Dec.quo (Dec.add (toDec 1960724) p.transX) p.transY = 3203199999388915652)
+    | _ => false) = true := by
+  set_option exponentiation.threshold 512 in decide
+
 end Comdex.C06
